@@ -8,56 +8,78 @@ namespace SigV4.C11
 
 /-- Value canonicalisation is trim + collapse of spaces. -/
 theorem normHeaderValue_eq_spec (v : Bytes) : normHeaderValue v = refHeaderValue v := by
-  sorry
+  exact normHeaderValue_eq_ref v
 
 /-- The canonical value has no leading, trailing or doubled space, and is unchanged by adding such. -/
 theorem normHeaderValue_shape (v : Bytes) :
     (normHeaderValue v).head? ≠ some (0x20 : UInt8) ∧ (normHeaderValue v).getLast? ≠ some (0x20 : UInt8) ∧
     ∀ i : Nat, (normHeaderValue v)[i]? = some (0x20 : UInt8) → (normHeaderValue v)[i+1]? ≠ some (0x20 : UInt8) := by
-  sorry
+  exact ⟨good_head _ (normHeaderValue_good v), normHeaderValue_last v,
+    good_nodbl _ _ (normHeaderValue_good v)⟩
 
 theorem normHeaderValue_idempotent (v : Bytes) : normHeaderValue (normHeaderValue v) = normHeaderValue v := by
-  sorry
+  exact normHeaderValue_fix _ (normHeaderValue_good v) (normHeaderValue_last v)
 
 /-- Redundant spaces do not matter: extra spaces before, after, or next to an existing space. -/
 theorem normHeaderValue_extra_spaces (a b : Bytes) :
     normHeaderValue (a ++ [0x20, 0x20] ++ b) = normHeaderValue (a ++ [0x20] ++ b) ∧
     normHeaderValue ([0x20] ++ a) = normHeaderValue a ∧
     normHeaderValue (a ++ [0x20]) = normHeaderValue a := by
-  sorry
+  refine ⟨?_, ?_, ?_⟩
+  · simp only [normHeaderValue, List.append_assoc, List.cons_append, List.nil_append,
+      nhvLoop_double_space]
+  · simp [normHeaderValue, nhvLoop]
+  · obtain ⟨t, ht, e⟩ := nhvLoop_trailing_space true a
+    unfold normHeaderValue
+    rw [e]
+    rcases ht with rfl | rfl
+    · simp
+    · exact dropWhileEnd_append_singleton_pos _ _ _ (by decide)
 
 /-- Grouping: the map entry of a name holds the canonical values of exactly the headers with that
 (case-insensitively equal) name, in arrival order; names without a header have no entry. -/
 theorem normalizeHeaders_get (hs : HeaderList) (name : Bytes) :
     assocGet (normalizeHeaders hs []) name =
       (if valuesOf hs name = [] then none else some ((valuesOf hs name).map normHeaderValue)) := by
-  sorry
+  exact normalizeHeaders_get' hs name
 
 /-- A header line is the lower-cased name, a colon, the canonical values joined by commas in
 arrival order, and a newline. -/
 theorem headerLine_eq_spec (hs : HeaderList) (name : Bytes) :
     headerLine (normalizeHeaders hs []) name = refHeaderLine hs name := by
-  sorry
+  exact headerLine_eq_ref hs name
 
 /-- Relative arrival order of differently named headers is irrelevant: if every name sees the
 same value sequence, the header block is the same. -/
 theorem header_block_order_irrelevant (hs hs' : HeaderList) (signed : List Bytes)
     (h : ∀ name, valuesOf hs name = valuesOf hs' name) :
     signed.flatMap (headerLine (normalizeHeaders hs [])) = signed.flatMap (headerLine (normalizeHeaders hs' [])) := by
-  sorry
+  apply flatMap_congr'
+  intro name _
+  rw [headerLine_eq_ref, headerLine_eq_ref]
+  exact refHeaderLine_congr _ _ _ (h name)
 
 /-- Header-name letter case is irrelevant. -/
 theorem header_name_case_irrelevant (hs : HeaderList) (signed : List Bytes) :
     signed.flatMap (headerLine (normalizeHeaders (hs.map fun h => (asciiLower h.1, h.2)) []))
       = signed.flatMap (headerLine (normalizeHeaders hs [])) := by
-  sorry
+  apply flatMap_congr'
+  intro name _
+  rw [headerLine_eq_ref, headerLine_eq_ref]
+  exact refHeaderLine_congr _ _ _ (valuesOf_lower hs name)
 
 /-- Headers that are not signed do not reach the canonical request at all. -/
 theorem unsigned_not_in_block (hs : HeaderList) (signed : List Bytes) (extra : Bytes × Bytes)
     (h : asciiLower extra.1 ∉ signed) (i : Nat) :
     signed.flatMap (headerLine (normalizeHeaders (hs.take i ++ extra :: hs.drop i) []))
       = signed.flatMap (headerLine (normalizeHeaders hs [])) := by
-  sorry
+  apply flatMap_congr'
+  intro name hn
+  rw [headerLine_eq_ref, headerLine_eq_ref]
+  apply refHeaderLine_congr
+  apply valuesOf_insert
+  intro he
+  exact h (he ▸ hn)
 
 /-- Binding of signed headers: if two header lists give the same line for a name, then the
 comma-joined canonical values agree (so any change to a value beyond space normalisation, to the
@@ -65,7 +87,10 @@ multiplicity or to the value order changes the line, up to the comma ambiguity i
 theorem headerLine_binds (hs hs' : HeaderList) (name : Bytes)
     (h : refHeaderLine hs name = refHeaderLine hs' name) (hne : valuesOf hs name ≠ []) (hne' : valuesOf hs' name ≠ []) :
     joinWith [0x2C] ((valuesOf hs name).map refHeaderValue) = joinWith [0x2C] ((valuesOf hs' name).map refHeaderValue) := by
-  sorry
+  rw [refHeaderLine_of_ne _ _ hne, refHeaderLine_of_ne _ _ hne'] at h
+  have h1 := List.append_cancel_right h
+  rw [List.append_assoc, List.append_assoc] at h1
+  exact List.append_cancel_left (List.append_cancel_left h1)
 
 example : normHeaderValue b!"  a   b  c " = b!"a b c" := by decide
 example : headerLine (normalizeHeaders [(b!"X-A", b!" 1 "), (b!"host", b!"h"), (b!"x-a", b!"2  3")] []) b!"x-a"
